@@ -1906,7 +1906,9 @@ func (r stack) defaultAssertionHandler(x any) (str string) {
 			// ik is already in the inner stack's own
 			// case (typ folds it on request); folding
 			// it a second time would undo that.
-			str = ik + ` ` + Xs.String()
+			if str = Xs.String(); len(str) > 0 {
+				str = ik + ` ` + str
+			}
 		} else {
 			str = Xs.String()
 		}
